@@ -602,7 +602,7 @@ def c04_random_seqs(seed, n):
     rnd = random.Random(seed)
     simple = ["D", "A", "R", "Dy", "Ry", "C", "C1", "S", "Q", "D", "R", "Q", "A", "Dx", "Fr", "G", "Cg",
               "K", "B", "Sw", "So", "Q", "D"]
-    openers = ["{", "I{", "F{", "L{", "W{", "T{", "T{", "L{", "W{"]
+    openers = ["{", "I{", "F{", "L{", "W{", "T{", "T{", "L{", "W{", "Lx{", "Ox{"]
 
     def gen(budget, depth):
         out = []
@@ -642,6 +642,10 @@ def c04(ctx):
                           nontrivial=lambda k, b, o: len(json.loads(k)[1]) >= 2)
     renaming_check(ctx, cases, "c04", {b"x": b"first_var", b"y": b"y2", b"f": b"fun_c", b"d": b"depth0",
                                         b"fs": b"closures", b"g": b"each"})
+    # names that begin like keywords (a word is a keyword only as a whole)
+    renaming_check(ctx, cases[::3], "c04kw", {b"x": b"elsewhere", b"y": b"iffy", b"f": b"fnord", b"d": b"format",
+                                                b"fs": b"inner", b"g": b"nulls", b"gg": b"truely", b"tk": b"whiles",
+                                                b"tick": b"returned"})
     scale_family(ctx, "c04", ["manyvars", "deep"])
     scripts = [s for s in repo_test_scripts()
                if "scope" in s[0] or "closure" in s[0] or "functions" in s[0] or "variables" in s[0]]
@@ -1303,6 +1307,12 @@ def c08(ctx):
     ctx.replay(oute, "c08e", seeds=(None, ctx.seed), render_opts={"extra_parens": 0.3})
     # a sign is not a binary minus: integer literals at the 64-bit limits in every operator context
     int_contexts(ctx, "c08", "C08")
+    # the written grouping is the evaluated one also where only 64-bit overflow tells groupings apart
+    d3 = sv.scratch("c08arith")
+    o3, m3 = nested_arith_obs(ctx, d3, sv.build(False), 300 if ctx.quick else 3000, ctx.seed + 9)
+    validate_obs(ctx, o3, m3, d3, "c08")
+    for i3 in range(len(o3)):
+        ctx.nontrivial.add("nested%d" % i3)
     scripts = [s for s in repo_test_scripts() if "precedence" in s[0] or "operations" in s[0]]
     corpus_validate(ctx, scripts, "c08tests")
 
@@ -1338,6 +1348,85 @@ def trunc_div(a, b):
     return -q if (a < 0) != (b < 0) else q
 
 
+def nested_arith_obs(ctx, d, plain, njobs3, seed):
+    """Expressions of three operands at the 64-bit limits, run on the real interpreter; returns observations
+    (kind `nested`) for Trace_Arith and their sources."""
+    import random
+    obs, meta = [], []
+    # (2b) three operands: the written grouping is the evaluated grouping (an intermediate result that does not
+    # fit is an error even if the regrouped expression would fit, and the other way round)
+    rnd3 = random.Random(seed)
+    vals3 = [I64_MAX, I64_MAX - 1, I64_MIN, I64_MIN + 1, 1, -1, 2, -2, 0, 3037000500, -3037000500, 2 ** 62]
+    jobs3 = []
+    for i in range(njobs3):
+        a3, b3, c3 = (rnd3.choice(vals3) for _ in range(3))
+        o1, o2 = rnd3.choice("+-*"), rnd3.choice("+-*")
+        jobs3.append((i, a3, o1, b3, o2, c3, rnd3.choice(["l", "r", "flat", "vars"])))
+
+    def src3(job):
+        i, a3, o1, b3, o2, c3, shape = job
+        A, B, C = int_src(a3), int_src(b3), int_src(c3)
+        if shape == "l":
+            return "print((%s %s %s) %s %s)\n" % (A, o1, B, o2, C)
+        if shape == "r":
+            return "print(%s %s (%s %s %s))\n" % (A, o1, B, o2, C)
+        if shape == "vars":
+            return "a := %s\nb := %s\nc := %s\nprint(a %s (b %s c))\n" % (A, B, C, o1, o2)
+        return "print(%s %s %s %s %s)\n" % (A, o1, B, o2, C)
+
+    def run3(job):
+        fn = "n%d.sd" % job[0]
+        with open(os.path.join(d, fn), "w") as fh:
+            fh.write(src3(job))
+        return sv.run_seed(plain, fn, d)
+    for job, (so, se, code) in zip(jobs3, sv.pmap(run3, jobs3)):
+        i, a3, o1, b3, o2, c3, shape = job
+        ctx.evaluations += 1
+        script = src3(job)
+        cr = sv.crashed(se, code)
+        if cr:
+            ctx.violation("the interpreter crashed (%s) on an arithmetic expression" % cr, script=script, prop="C02")
+            continue
+        t = so.decode().strip()
+        if code == 0 and se == b"" and re.fullmatch(r"-?[0-9]+", t):
+            oc3 = ("value", int(t))
+        elif code == 103 and so == b"" and se.count(b"\n") == 1 and se.endswith(b"caused an integer overflow\n"):
+            oc3 = ("overflow", 0)
+        else:
+            ctx.violation("arithmetic observation is neither a value nor the overflow diagnostic",
+                          script=script, detail={"stdout": t, "stderr": se.decode(errors="replace"), "exit": code})
+            continue
+        right = shape in ("r", "vars") or (shape == "flat" and o2 == "*" and o1 in "+-")
+        obs.append({"kind": "nested", "a": big(a3), "b": big(b3), "c": big(c3), "op1": o1, "op2": o2,
+                    "right": right, "res": oc3[0], "r": big(oc3[1])})
+        meta.append(script)
+    return obs, meta
+
+
+def validate_obs(ctx, obs, meta, d, name):
+    """Observations validated by TLC with exact arithmetic (Trace_Arith)."""
+    of = os.path.join(d, "obs-%s.ndjson" % name)
+    with open(of, "w") as fh:
+        for o in obs:
+            fh.write(json.dumps(o) + "\n")
+    rc, out = sv.tlc("Trace_Arith", cfg=os.path.join(sv.SPEC, "Trace_Arith.cfg"), env={"SEED_OBS": of},
+                     workers=16, timeout=1800, metaname="Trace_Arith-" + name)
+    if not sv.tlc_ok(rc, out):
+        raise sv.ToolError("Trace_Arith failed:\n" + sv.tlc_error_text(out))
+    st = sv.tlc_stats(out)
+    ctx.states += st["distinct"]
+    ctx.transitions += max(st["generated"], 1)
+    ctx.models["Trace_Arith:" + name] = {"module": "Trace_Arith", "observations": len(obs),
+                                         "distinct_states": st["distinct"]}
+    ctx.validated += len(obs)
+    for l in out:
+        m = re.match(r'"BADOBS (\d+)"', l)
+        if m:
+            k = int(m.group(1)) - 1
+            ctx.violation("an observed arithmetic result is not what exact arithmetic on the written grouping gives",
+                          script=meta[k], detail={"observation": obs[k]})
+
+
 def c06(ctx):
     import random
     plain = sv.build(False)
@@ -1357,6 +1446,9 @@ def c06(ctx):
                   progof="ArithProgOf")
     int_contexts(ctx, "c06", "C06")
     scale_family(ctx, "c06", ["range", "chain"])
+    # op-assignment = assignment also under shadowing (the target is the binding a read sees)
+    outs = ctx.run_model("MC_C06", "C06Params", invariants=["OpAssignIsAssign"], props=FRAME_PROPS + ["ShadowFrame"])
+    ctx.replay(outs, "c06-shadow", seeds=(None,) if ctx.quick else (None, ctx.seed))
     ctx.notes.append("ASSUME DivMod, RemSign, TruncToZero, MulFitsOk, ResultRule, OrderRule over all 65 536 8-bit "
                      "pairs; MC_BigInt ASSUMEs (BigInt = native arithmetic on values straddling limb boundaries)")
     cfg = os.path.join(sv.SPEC, "MC_BigInt.cfg")
@@ -1456,6 +1548,22 @@ def c06(ctx):
                             "q": big(q[1]) if q[0] == "value" else big(0), "rres": rr[0],
                             "r": big(rr[1]) if rr[0] == "value" else big(0)})
                 meta.append(qs + "# and\n" + rs)
+    o3, m3 = nested_arith_obs(ctx, d, plain, 400 if ctx.quick else 4000, ctx.seed + 5)
+    obs += o3
+    meta += m3
+    # several literals in one source text (each literal denotes its own value)
+    multi = ["print([1_000, 2_5, 1_0 + 1, 7, 3_3_3])\nprint(2_5 == 25)\nfor [_, v] in -1_3 .. -1_1 { print(v); }\n"
+             "print(1_000)\nprint(9_223_372_036_854_775_807)\nprint(1_0)\n"]
+    for i, src in enumerate(multi):
+        fn = "m%d.sd" % i
+        open(os.path.join(d, fn), "w").write(src)
+        so, se, code = sv.run_seed(plain, fn, d)
+        ctx.evaluations += 1
+        want = "[\n    1000,\n    25,\n    11,\n    7,\n    333,\n]\ntrue\n-13\n-12\n1000\n9223372036854775807\n10\n"
+        if code != 0 or so.decode() != want:
+            ctx.violation("integer literals with separators in one source text do not denote their values",
+                          script=src, detail={"stdout": so.decode(errors="replace"),
+                                              "stderr": se.decode(errors="replace"), "expected": want})
     # literals
     lits = ["0", "7", "1_000", "1_2_3", "9223372036854775807", "9223372036854775808", "9_223_372_036_854_775_807",
             "0009", "18446744073709551616", "99999999999999999999", "1__0", "4611686018427387904", "000", "10_"]
